@@ -1,0 +1,26 @@
+//! Verification hooks (feature `verif-hooks`, off by default).
+//!
+//! `probe(point)` calls a process-global callback installed by the external
+//! verification harness; with no callback installed it does nothing. The rest
+//! of this module only forwards to private items so the harness can drive them
+//! in-process. Nothing here is compiled without the feature.
+
+use std::sync::{Arc, RwLock};
+
+type ProbeFn = Arc<dyn Fn(&'static str, u64) + Send + Sync>;
+
+static PROBE: RwLock<Option<ProbeFn>> = RwLock::new(None);
+
+/// Install (or clear) the global probe callback.
+pub fn set_probe(f: Option<ProbeFn>) {
+    *PROBE.write().unwrap() = f;
+}
+
+/// Called at instrumented points; `value` carries a point-specific number
+/// (an id, a length) or 0.
+pub fn probe(point: &'static str, value: u64) {
+    let cb = PROBE.read().unwrap().clone();
+    if let Some(cb) = cb {
+        cb(point, value);
+    }
+}
